@@ -37,6 +37,14 @@ TRAPS = ["inf", "-inf", "+inf", "nan", "NaN", "Infinity", "-Infinity", "0x10", "
          "--1", "1-", "1+", "+", "-", ".", ",", "", "TRUE", "None"]
 
 
+# literals of every length from 18 to 45 characters: long integers (beyond 64 bits -> float), zero-padded integers,
+# long fractions, comma marks, exponents after many digits
+for _L in range(18, 46):
+    TRAPS += ["1" + "0" * (_L - 1), "0" * (_L - 1) + "7", "0." + "0" * (_L - 3) + "5", "-0," + "0" * (_L - 4) + "5",
+              "1." + "2" * (_L - 5) + "e-3", "+" + "9" * (_L - 1)]
+TRAPS += ["0.1" + "0" * 300, "1" + "0" * 308, "1" + "0" * 309, "x" * 40, "1" * 30 + "a"]
+
+
 def scan(s):
     """('lit', 'int'|'float') | ('amb',) | ('not',).  Grammar: sign? digits [mark digits]? [e sign? digits]?"""
     n = len(s)
@@ -186,6 +194,10 @@ def points(tier):
         for mn in ("X", "API", "UWI", "api", "Uwi"):
             for chunk in range(0, 5220, CHUNK):
                 pts.append(["read", sec, mn, chunk])
+                if mn == "X" and sec != "Curves":
+                    # header value conversion is independent of the data-section read_policy / null_policy
+                    pts.append(["read", sec, mn, chunk, "nopolicy"])
+                    pts.append(["read", sec, mn, chunk, "comma-delimiter"])
     # the items lasio itself looks at after parsing (NULL, STRT, STOP, STEP): one value per file, traps and short strings
     for mn in ("NULL", "STRT", "STOP", "STEP"):
         pts.append(["read1", "Well", mn])
@@ -251,7 +263,10 @@ READ_SECS = {
 }
 
 
-def run_read(sec, mnemonic, chunk):
+RKW = {None: {}, "nopolicy": {"read_policy": (), "null_policy": "none"}, "comma-delimiter": {"read_policy": "comma-delimiter"}}
+
+
+def run_read(sec, mnemonic, chunk, policy=None):
     title, seam = READ_SECS[sec]
     colon_ok = SEAMS[seam][4]
     strs = [s for s in all_short(3)[chunk:chunk + CHUNK] if (colon_ok or ":" not in s) and not (sec == "Curves" and ".." in s)]
@@ -265,7 +280,7 @@ def run_read(sec, mnemonic, chunk):
     text += "~ASCII\n"
     vio = []
     try:
-        las = lasio.read(text, mnemonic_case="preserve", ignore_data=True)
+        las = lasio.read(text, mnemonic_case="preserve", ignore_data=True, **RKW[policy])
         key = {"Well": "Well", "Parameter": "Parameter", "Version": "Version", "custom": "Xtra stuff", "Curves": "Curves"}[sec]
         items = list(las.sections[key])
         if sec == "Version":
@@ -282,7 +297,7 @@ def run_read(sec, mnemonic, chunk):
         why = judge(raw, it.value, SEAMS[seam][5], mnemonic)
         if why:
             v = V("value-conversion-via-read", seam, mnemonic, s, why, "%s %r" % (type(it.value).__name__, it.value))
-            v["witness"] = {"read": [sec, mnemonic, chunk], "string": s}
+            v["witness"] = {"read": [sec, mnemonic, chunk, policy], "string": s}
             vio.append(v)
     return vio, len(strs), nontriv
 
@@ -328,7 +343,7 @@ def check_point(pt):
     elif kind == "traps":
         vio, n, nt = run_seam(pt[1], pt[2], TRAPS)
     else:
-        vio, n, nt = run_read(pt[1], pt[2], pt[3])
+        vio, n, nt = run_read(pt[1], pt[2], pt[3], pt[4] if len(pt) > 4 else None)
     return e1.compress(vio), nt, kind, {kind + "_strings": n}, n
 
 
@@ -336,8 +351,9 @@ def replay(witness):
     if "read1" in witness:
         return [v for v in run_read1(*witness["read1"])[0] if v["witness"].get("string") == witness["string"]]
     if "read" in witness:
-        sec, mn, chunk = witness["read"]
-        return [v for v in run_read(sec, mn, chunk)[0] if v["witness"].get("string") == witness["string"]]
+        sec, mn, chunk = witness["read"][:3]
+        pol = witness["read"][3] if len(witness["read"]) > 3 else None
+        return [v for v in run_read(sec, mn, chunk, pol)[0] if v["witness"].get("string") == witness["string"]]
     return run_seam(witness["seam"], witness["mnemonic"], [witness["string"]])[0]
 
 
